@@ -27,6 +27,11 @@ pub fn pow(a: i64, mut e: u64) -> i64 {
 }
 /// inverse table by exhaustive search: inv[a] * a = 1 (mod q), inv[0] = 0
 pub fn inverse_table() -> Vec<i64> {
+    static TABLE: std::sync::OnceLock<Vec<i64>> = std::sync::OnceLock::new();
+    TABLE.get_or_init(build_inverse_table).clone()
+}
+
+fn build_inverse_table() -> Vec<i64> {
     let mut inv = vec![0i64; Q as usize];
     for a in 1..Q {
         if inv[a as usize] != 0 {
